@@ -12,7 +12,7 @@ import lib
 from lib import ToolError, log
 
 PROPS = {
-    "C01": "p_core", "C02": "p_core", "C03": "p_core", "C04": "p_cov", "C05": "p_numeric", "C06": "p_host", "C07": "p_scope", "C08": "p_graph", "C09": "p_sources", "C10": "p_frontend", "C11": "p_lexer", "C15": "p_session", "C16": "p_determinism", "C17": "p_conc", "C18": "p_backend", "C19": "p_backend", "C20": "p_monadic",
+    "C01": "p_core", "C02": "p_core", "C03": "p_core", "C04": "p_cov", "C05": "p_numeric", "C06": "p_host", "C07": "p_scope", "C08": "p_graph", "C09": "p_sources", "C10": "p_frontend", "C11": "p_lexer", "C12": "p_format", "C13": "p_format", "C14": "p_format", "C15": "p_session", "C16": "p_determinism", "C17": "p_conc", "C18": "p_backend", "C19": "p_backend", "C20": "p_monadic",
 }
 
 
